@@ -84,8 +84,13 @@ func contentType(t uint8) string {
 	return "unknown"
 }
 
+// maxRecordLength is the largest record length this package relays: 2^14
+// for plaintext, 2^14+256 for TLS 1.3 ciphertext (RFC 8446 section 5.2)
+// and 2^14+2048 for TLS 1.2 ciphertext (RFC 5246 section 6.2.3).
+const maxRecordLength = 16384 + 2048
+
 func readRecord(conn net.Conn) ([]byte, error) {
-	record := make([]byte, 16389)
+	record := make([]byte, 5+maxRecordLength)
 	n, err := io.ReadFull(conn, record[:5])
 	if err == io.ErrUnexpectedEOF {
 		err = io.EOF
@@ -94,8 +99,8 @@ func readRecord(conn net.Conn) ([]byte, error) {
 		return record[:n], err
 	}
 	length := uint32(record[3])<<8 | uint32(record[4])
-	if length > 16384 {
-		return record[:n], fmt.Errorf("%w: record length %d > 16384", ErrDecodeError, length)
+	if length > maxRecordLength {
+		return record[:n], fmt.Errorf("%w: record length %d > %d", ErrDecodeError, length, maxRecordLength)
 	}
 	nn, err := io.ReadFull(conn, record[n:n+int(length)])
 	if err == io.ErrUnexpectedEOF {
